@@ -21,7 +21,7 @@ from . import common, rel, tlc
 
 TIERS = {
     "quick": dict(sample=140, sim_num=40, variations=120, seeds=(1, 12345)),
-    "thorough": dict(sample=1500, sim_num=600, variations=1500, seeds=(1, 7, 12345, 99991)),
+    "thorough": dict(sample=1500, sim_num=120, variations=1500, seeds=(1, 7, 12345, 99991)),
 }
 UUID_PREFIXES = ("zpartd-", "shuffle-partition-", "barrier-")      # DiskShuffle uses a fresh uuid per graph (deliberate)
 
